@@ -521,6 +521,7 @@ def _a64_work_inner(args):
     cnt = out["counters"]
     wd = _workdir("%s-a64" % _XG["run_id"])
     items = []      # (plan, tag, text, choice, valid)
+    default_clauses = {}    # plan idx -> clauses of its default case (generated first): inherited by the other cases = class 'default'
     for idx in form_ids:
         plan = setup.plans[idx]
         for tag, text, ch, valid in a64_generate(plan, k):
@@ -557,8 +558,10 @@ def _a64_work_inner(args):
             if not val_ok and n_ok:
                 cnt["lenient_encoder"] += 1
             sig = ac.form_signature(plan.form).replace(" ", "")
+            if tag == "default":
+                default_clauses[plan.idx] = set(cl for cl, _ in clauses)
             for clause, desc in clauses:
-                dc = L.a64_dev_class(tag)
+                dc = "default" if clause in default_clauses.get(plan.idx, ()) else L.a64_dev_class(tag)
                 if stub and clause.startswith("validator-admits-encoder-rejects"):
                     dc = "validate-stub"
                     clause = "validator-admits-encoder-rejects"      # one root cause whatever the encoder's error code
@@ -650,9 +653,12 @@ def alias_file(workdir):
 
 
 def names_leg(res, ctx, acc, replay=None):
-    wd = _workdir("names-%s" % vbuild.repo_key())
+    wd = _workdir("names-%d" % os.getpid())
     r = runner.Result()
-    runner.run_harness(r, SRC_NAMES, "asan", ctx["tier"], args=["--aliases", alias_file(wd)], timeout=600, replay=replay)
+    try:
+        runner.run_harness(r, SRC_NAMES, "asan", ctx["tier"], args=["--aliases", alias_file(wd)], timeout=600, replay=replay)
+    finally:
+        shutil.rmtree(wd, ignore_errors=True)
     acc["names"] = r
     return r
 
@@ -974,8 +980,19 @@ def _replay_a64(res, text, exes, wd, ctx):
         return
     clauses, _ = a64_judge_case(emit, rv, rn, val, vw, nw)
     stub = a64_probe(exes)
+    folded = set()
+    if clauses and dev != "default":
+        plan = next((p for p in C02.get_setup().plans.values() if p.key == key), None)
+        if plan is not None:
+            try:
+                dtext = plan.render(tuple([0] * len(plan.slots))).emit
+                o2, c2 = a64_observe(exes, [dtext], wd)
+                if not c2 and None not in o2[0]:
+                    folded = set(cl for cl, _ in a64_judge_case(dtext, *o2[0])[0])
+            except ac.Unsupported:
+                pass
     for clause, desc in clauses:
-        dc = L.a64_dev_class(dev)
+        dc = "default" if clause in folded else L.a64_dev_class(dev)
         if stub and clause.startswith("validator-admits-encoder-rejects"):
             dc, clause = "validate-stub", "validator-admits-encoder-rejects"
         res.add_violation("agree:a64:64:%s:%s:%s@%s" % (name, sig, clause, dc), desc, text)
